@@ -595,12 +595,20 @@ impl Clone for Ex {
             request_rx: rx,
             event_tx: etx,
             instruments: e.instruments.clone(),
-            account: AccountState::new(
-                e.account.balances().map(|b| (b.asset.clone(), b.clone())).collect(),
-                e.account.orders_open().map(|o| (o.key.cid.clone(), o.clone())).collect(),
-                e.account.orders_cancelled().map(|o| (o.key.cid.clone(), o.clone())).collect(),
-                e.account.trades(DateTime::<Utc>::MIN_UTC).cloned().collect(),
-            ),
+            account: {
+                // the trade history goes back in through `ack_trade`, so the copy does not depend on the
+                // collection type the ledger keeps its trades in
+                let mut account = AccountState::new(
+                    e.account.balances().map(|b| (b.asset.clone(), b.clone())).collect(),
+                    e.account.orders_open().map(|o| (o.key.cid.clone(), o.clone())).collect(),
+                    e.account.orders_cancelled().map(|o| (o.key.cid.clone(), o.clone())).collect(),
+                    Default::default(),
+                );
+                for trade in e.account.trades(DateTime::<Utc>::MIN_UTC).cloned().collect::<Vec<_>>() {
+                    account.ack_trade(trade);
+                }
+                account
+            },
             order_sequence: e.order_sequence,
             time_exchange_latest: e.time_exchange_latest,
         })
